@@ -92,7 +92,8 @@ Inductive gev :=
 | GAdded (h : handler) (w : watch)       (* registry mutation: (h,w) registered *)
 | GRemoved (h : handler) (w : watch)     (* registry mutation: (h,w) removed *)
 | GRemovedW (w : watch)                  (* ... every handler of w removed *)
-| GRemovedAll.                           (* ... every handler removed *)
+| GRemovedAll                            (* ... every handler removed *)
+| GSnap (w : watch) (hs : list handler). (* the dispatcher copied the handler set of w *)
 
 Inductive epc := ENew | ECheckPc | EPutPc | EExiting | EExited.
 
@@ -347,7 +348,7 @@ Definition exec (s : state) (t : tid) (i : instr) (k : list instr) (inp : input)
       end
   | DSnap =>
       match dcur s with
-      | Some (e, w) => let hs := hauto w (handlers s) in go k (set_dtodo (hset w hs) (set_handlers hs s))
+      | Some (e, w) => let hs := hauto w (handlers s) in go k (say (GSnap w (hset w hs)) (set_dtodo (hset w hs) (set_handlers hs s)))
       | None => None
       end
   | DTurns =>
